@@ -1,12 +1,17 @@
 """Trusted library contracts for the addon properties C19/C20/C22/C23/C24.
 
 * logging: calls are no-ops (no modelled state).
-* str/bytes.rsplit(sep, 1) for a 1-character separator: exact (characterised through fresh parts).
-* ipaddress.ip_address(str): parsing is an uninterpreted pair (ip_version, ip_value) of the text; classification
-  predicates (is_loopback/is_private/is_global) are uninterpreted predicates of the numeric value; IPv4-mapped IPv6
-  (RFC 4291 §2.5.5.2: 80 zero bits, 16 one bits, 32 address bits) is modelled exactly on the numeric value.
-* re.search / re.match with a *symbolic or user-supplied* pattern: an uninterpreted predicate re_matches(pattern, text).
-* base64 (binascii.a2b_base64 / b2a_base64 / base64.b64encode): uninterpreted functions with the decode(encode(x)) == x axiom.
+* str/bytes.rsplit(sep, 1) (1-character separator) and split() / split(sep): *exact* on structured strings, i.e. concatenations
+  of literals and symbolic pieces that provably contain no separator (decided by regex-membership queries); rsplit falls back to
+  a characterisation through fresh parts, split to the models loaded before this one.
+* ipaddress.ip_address(str): parsing is an uninterpreted pair (ip_version, ip_value) of the text; is_loopback/is_private/is_global
+  are uninterpreted predicates of the numeric value; IPv4-mapped IPv6 (RFC 4291 §2.5.5.2) is exact on the numeric value.
+* re.search(pattern text, subject, flags): an uninterpreted predicate re_search3(pattern, flags, subject) (user rules).
+* base64 (b64encode / b2a_base64 / a2b_base64): uninterpreted, a2b_base64(b64encode(x)) == x and the alphabet fact instantiated on
+  every encoding term; exact algebraic identities applied syntactically: utf8-decode(utf8-encode(u)) == u,
+  a2b_base64(b64encode(x)) == x, ASCII-compatible encode/decode of base64 text and of provably-ASCII strings is the identity.
+* lib.UF_ORACLES entries (real library functions) for all of the above: used only by vc.Explorer.realistic_model to produce
+  counter-models / conformance samples that agree with the real library (scenario option `candidates`), never for proving.
 
 Property modules use the same uninterpreted symbols through `lib.uf(name, ...)`; natively they call the real library.
 """
